@@ -105,6 +105,22 @@ def session(sess, n, t, keys, rootkind, combos):
                         "aggregate_with_tweak: cheater identification in parity case (internal key %s, R %s): expected %s, got %s" % (parity(internal), parity(R), ch[:1], a3.raw), rp())
         bad = sess.call("verify_share %s id=%s Y=%s z=%s msg=%s comms=%s vk=%s" % (suite, ch[0], out["vshares"][ch[0]], z2[ch[0]], msg, comms, out["vk"]), EXACT, "verify_share-bad")
         sess.oracle(bad.err == "InvalidSignatureShare", "altered Taproot share accepted by verify_signature_share", rp())
+    # a share computed on the WRONG parity branch (the signer skipped / wrongly applied the BIP-340 nonce negation):
+    # z' = z -/+ 2(d + rho*e), i.e. it matches -R_i where R_i is expected; it must be rejected and its signer named
+    b = sess.call("bfl %s msg=%s comms=%s vk=%s" % (suite, msg, comms, "02" + out["vk"][2:]), EXACT, "bfl")
+    if b.ok:
+        rho = {x.split(":")[0]: fld.dec(x.split(":")[1]) for x in recs(b["rho"])}
+        w = signers[-1]
+        nf = nonces_fields(nonces[w])
+        flip = -2 if parity(R) == "even" else 2
+        zw = dict(zs)
+        zw[w] = fld.enc(fld.dec(zs[w]) + flip * (fld.dec(nf["hid"]) + rho[w] * fld.dec(nf["bnd"])))
+        if zw[w] != zs[w]:
+            bw = sess.call("verify_share %s id=%s Y=%s z=%s msg=%s comms=%s vk=%s" % (suite, w, out["vshares"][w], zw[w], msg, comms, out["vk"]), EXACT, "verify_share-wrong-parity")
+            sess.oracle(bw.err == "InvalidSignatureShare", "a Taproot share computed on the wrong parity branch (nonce sign flipped; group commitment %s) was accepted by verify_signature_share (%s)" % (parity(R), bw.raw[:60]), rp())
+            aw = aggregate(sess, suite, msg, comms, zw, outpkp, "first", EXACT)
+            sess.oracle((aw.err, aw.culprits()) == ("InvalidSignatureShare", [w]), "a Taproot share computed on the wrong parity branch was not identified (group commitment %s): %s" % (parity(R), aw.raw[:80]), rp())
+            sess.count("wrong-parity-branch share")
     combo = (parity(internal), parity(out["vk"]), parity(R))
     combos[combo] = combos.get(combo, 0) + 1
     sess.count("parity:%s/%s/%s" % combo)
